@@ -141,3 +141,35 @@ Proof.
   destruct (ss_add_vote_gen true e _ vt) as [ss' out].
   destruct (add_certs e _ (o_certs out) po_empty) as [[p2 o]|]; cbn; discriminate.
 Qed.
+
+(* ---------------- standstill recovery (C18) ---------------- *)
+(* recovery never panics while nothing beyond genesis is finalized (current tree) ... *)
+Theorem standstill_safe_at_genesis : forall e p,
+  finalized_slot p = 0 -> snd (fst (pool_standstill e p)) <> RPanic.
+Proof.
+  intros e p H. unfold pool_standstill, pool_standstill_gen. rewrite H.
+  destruct (get_final_certs p 0); cbn; discriminate.
+Qed.
+(* ... whereas the pinned tree panicked on a fresh pool *)
+Lemma standstill_pinned_refuted : forall e, snd (fst (pool_standstill_gen false e pool_init)) = RPanic.
+Proof. intros e. reflexivity. Qed.
+
+(* whenever recovery does not panic it emits exactly one Standstill event for slot finalized+1 carrying
+   the final certificates of the highest finalized slot, every certificate held for later slots and
+   the node's own votes for later slots - nothing else, no state change *)
+Theorem standstill_bundle_contents : forall e p p' r o,
+  pool_standstill e p = (p', r, o) -> r <> RPanic ->
+  p' = p /\ po_repair o = [] /\
+  let s := finalized_slot p in
+  let later := filter (fun kv => s <? fst kv) (slots_sorted (p_slots p)) in
+  po_events o = [EStandstill (s + 1)
+                   (get_final_certs p s ++ flat_map (fun kv => certs_of_slot (snd kv)) later)
+                   (flat_map (fun kv => own_votes_of_slot e (fst kv) (snd kv)) later)].
+Proof.
+  intros e p p' r o H Hr. unfold pool_standstill, pool_standstill_gen in H.
+  destruct (get_final_certs p (finalized_slot p)) as [|c cs] eqn:E.
+  - destruct (finalized_slot p =? 0) eqn:Z; cbn [andb] in H.
+    + injection H as <- <- <-. repeat split; try reflexivity. cbv zeta. rewrite E. reflexivity.
+    + injection H as <- <- <-. congruence.
+  - injection H as <- <- <-. repeat split; try reflexivity. cbv zeta. rewrite E. reflexivity.
+Qed.
